@@ -226,31 +226,9 @@ Definition a64_fmt_virt (name : option text) (index : Z) (t : a64rt) (et : Z) (e
   vreg_name name index ++ a64_elem_suffix t et
   ++ match ei with Some i => render [P "["; TId (dec i); P "]"] | None => [] end.
 
-(* ------------------------------------------------------------------ FuncNode of a Compiler: "L1: int32@eax Func(int32@edi a0, int64@[8] <none>)"
-   a value is its type name and, when assigned, "@" + register and/or "[stack offset]" *)
-Inductive fassign := FAReg (t : x86rt) (id : Z) | FAStack (off : Z) | FANone.
+(* the register type of an AArch64 virtual register is never printed (arm::FormatterInternal::format_register ignores its flags: kRegType and
+   kRegCasts have no effect): the 32-bit and the 64-bit view of one virtual register print alike, so "add %0, %1" does not say which add *)
+Lemma a64_virt_type_not_shown name index : a64_fmt_virt name index AGp32 0 None = a64_fmt_virt name index AGp64 0 None.
+Proof. reflexivity. Qed.
 
-Definition fmt_fvalue (ty : text) (a : fassign) : text :=
-  ty ++ match a with
-        | FAReg t id => at_c :: fmt_reg t id
-        | FAStack off => at_c :: "["%char :: fmt_int off ++ ["]"%char]
-        | FANone => []
-        end.
-
-Fixpoint join_comma (l : list text) : text :=
-  match l with [] => [] | [x] => x | x :: r => x ++ s ", " ++ join_comma r end.
-
-Definition fmt_func_node (lbl : Z) (rets : list (text * fassign)) (args : list (text * fassign * option text)) : text :=
-  label_text lbl ++ s ": "
-  ++ match rets with
-     | [] => s "void"
-     | [(ty, a)] => fmt_fvalue ty a
-     | _ => "["%char :: join_comma (map (fun p => fmt_fvalue (fst p) (snd p)) rets) ++ ["]"%char]
-     end
-  ++ s " Func("
-  ++ match args with
-     | [] => s "void"
-     | _ => join_comma (map (fun p => fmt_fvalue (fst (fst p)) (snd (fst p)) ++ " "%char ::
-                                      match snd p with Some n => n | None => s "<none>" end) args)
-     end
-  ++ s ")".
+(* FuncNode of a Compiler: see FuncValue.v *)
